@@ -37,8 +37,8 @@ def run_lines(inst, rng_sched, frames):
 
 def generate(rng, tier):
     cases = []
-    rl = sysgen.quick_roms()[:4] if tier == 'quick' else sysgen.roms()
-    frames = 12 if tier == 'quick' else 60
+    rl = sysgen.quick_roms()[:4] if tier == 'quick' else sysgen.roms()[::2]
+    frames = 12 if tier == 'quick' else 40
     for i, r in enumerate(rl):
         sched = sorted((rng.randrange(frames), rng.randrange(8), rng.randrange(2)) for _ in range(6))
         lines = ['gb.new 0 %s' % sysgen.enc(r)] + run_lines(0, sched, frames)
